@@ -40,7 +40,77 @@ def generate(seed, tier, enlarged=False):
     cases.append({'kind': 'live', 'hist': [['B', [['generate', 'c01', 9, {'s': {'n': 1}}]]], ['A', [['generate', 'c02', 2, {}], ['generate', 'c03', 0, {}], ['generate', 'c04', 3, {'s': {'n': 2, 'd': 3, 'f': 1, 'g': 5}}]]], ['B', [['add', 'c05', {'s': {'n': 6}}], ['divide', 'c01', [['c06', 1, {}], ['c07', 3, {}]], 520513], ['add', 'c08', {'s': {'n': 2}}]]], ['A', [['add', 'c09', {'s': {'n': 6}}]]], ['B', [['move', 'c05', 'A'], ['move', 'c07', 'A']]]], 'director': 'process', 'refresh': [0], 'extra': 2, 'slow': True, 'entry': 'parts', 'more': {'i3': {'s': {'n': 6}}, 'i1': {'s': {'n': 6}}, 'i2': {'s': {'n': 6}}}})
     # value updates carried by the same update as structural keys (never lost): structural histories as C09
     cases += [{'kind': 'hist', 'hist': struct.gen_history(rng, rng.randint(3, 8))} for _ in range(n // 6)]
+    # "a process whose update condition is false contributes nothing" for STEPS (gated by `_condition` or by an
+    # overridden update_condition) and for PARALLEL processes with an overridden update_condition (oracle only)
+    for i in range(max(6, n // 30)):
+        cases.append({'kind': 'condstep', 'script': [rng.random() < 0.5 for _ in range(rng.randint(3, 7))],
+                      'own': rng.random() < 0.5, 'init': rng.random() < 0.5})
+    for i in range(2 if tier == 'quick' else 12):
+        cap = rng.randint(1, 3)
+        cases.append({'kind': 'parcond', 'cap': cap, 'total': cap + rng.randint(2, 3)})
     return cases
+
+
+def run_cond(c):
+    import contextlib
+    import io
+    import multiprocessing
+    from vivarium.core.engine import Engine
+    from harness.par_kit import GateDriver, GatedStep, Refill
+    if c['kind'] == 'condstep':
+        params = {'own': c['own']}
+        if not c['own']:
+            params['_condition'] = ('gate', 'open')
+        with contextlib.redirect_stdout(io.StringIO()):
+            eng = Engine(processes={'driver': GateDriver({'script': c['script']})}, steps={'gated': GatedStep(params)},
+                         flow={'gated': []}, topology={'driver': {'gate': ('gate',)},
+                                                        'gated': {'gate': ('gate',), 'out': ('out',)}},
+                         initial_state={'gate': {'open': c['init']}}, emitter='timeseries', display_info=False)
+            eng.update(len(c['script']))
+            data = eng.emitter.get_data()
+        return {'rows': {str(float(t)): row['out']['n'] for t, row in data.items()}}
+    out = {}
+    for mode in ('serial', 'parallel'):
+        params = {'cap': c['cap']}
+        if mode == 'parallel':
+            params['_parallel'] = True
+        try:
+            with contextlib.redirect_stdout(io.StringIO()):
+                eng = Engine(processes={'refill': Refill(params)}, topology={'refill': {'tank': ('tank',)}},
+                             emitter='timeseries', display_info=False)
+                eng.update(c['total'])
+                data = eng.emitter.get_data()
+                eng.end()
+            out[mode] = {str(float(t)): [row['tank']['level'], row['tank']['calls']] for t, row in data.items()}
+        except Exception as e:
+            out[mode] = {'err': '%s: %s' % (type(e).__name__, str(e)[:150])}
+        for ch in multiprocessing.active_children():
+            ch.terminate()
+    return out
+
+
+def oracle_cond(c, ob, rng):
+    if c['kind'] == 'condstep':
+        # the step phase at time 0 sees the initial gate, the one at time t >= 1 the value the driver set in [t-1, t]
+        n, want = 0, {}
+        for t in range(len(c['script']) + 1):
+            gate = c['init'] if t == 0 else c['script'][t - 1]
+            n += 1 if gate else 0
+            want[str(float(t))] = n
+        if ob['rows'] != want:
+            return [('a step gated by %s contributed while its condition was false (or not while it was true): counter '
+                     'by time %r, expected %r' % ('its own update_condition' if c['own'] else '_condition', ob['rows'], want),
+                     'condition-ignored')]
+        return []
+    for mode in ('serial', 'parallel'):
+        if 'err' in ob[mode]:
+            return [('the %s run raised %s' % (mode, ob[mode]['err']), 'parallel-raised')]
+        for t, (level, calls) in ob[mode].items():
+            k = min(int(float(t)), c['cap'])
+            if [level, calls] != [k, k]:
+                return [('%s run: a process whose update_condition is `level < %d` has level %r after %r calls at time %s'
+                         % (mode, c['cap'], level, calls, t), 'condition-ignored')]
+    return []
 
 
 def run(cases, tier='quick', seed=0):
@@ -61,7 +131,15 @@ def run(cases, tier='quick', seed=0):
         run_impl, render = staticmethod(struct.run_impl), staticmethod(struct.render)
         oracle = staticmethod(lambda c, ob, rng: struct.oracle_upd(c, ob))
         nontrivial, stat_key = staticmethod(struct.nontrivial), staticmethod(struct.stat_key)
+    class Cond:
+        __name__ = 'harness.c01cond'
+        IMPORTS, CHECK_FN, BAD_TERM = live.IMPORTS, live.CHECK_FN, live.BAD_TERM
+        run_impl, oracle = staticmethod(run_cond), staticmethod(oracle_cond)
+        nontrivial = staticmethod(lambda c, ob: True)
+        stat_key = staticmethod(lambda c, ob: c['kind'])
+        render = staticmethod(lambda c, ob: None)
     return common.merge_streams(cases, [
+        (lambda c: c['kind'] in ('condstep', 'parcond'), lambda cs: common.generic_run(Cond, cs, seed, shard=40)),
         (lambda c: c['kind'] == 'sched', lambda cs: sched.run_family(me, cs, seed, PROPS)),
         (lambda c: c['kind'] == 'live', lambda cs: common.generic_run(Live, cs, seed, shard=20)),
         (lambda c: c['kind'] == 'hist', lambda cs: common.generic_run(Hist, cs, seed, shard=40))])
